@@ -90,6 +90,19 @@ def run_case(case):
             diff = [c for c in fr1.columns if c not in fr2.columns or not np.array_equal(fr1[c].to_numpy(), fr2[c].to_numpy())]
             viols.append(violation("solve_and_simulate==simulate(solve)", "simulate", "FRAME", f"frames differ in columns {diff}", params=vname))
             break
+        # second call on the SAME function objects after mutating the params dict in place
+        if vname == "default":
+            try:
+                params["beta"] = 0.5
+                V_b = solve(params)
+                fr1b = sim(params, initial_states=jinit, vf_arr_list=V_b, seed=7)
+                fr2b = sas(params, initial_states=jinit, seed=7)
+                traces += 2
+                if not np.array_equal(fr1b.to_numpy(dtype=np.float64), fr2b.to_numpy(dtype=np.float64)):
+                    viols.append(violation("solve_and_simulate==simulate(solve)", "simulate", "FRAME", "second call after changing params['beta'] in place: frames differ", params=vname))
+                    break
+            finally:
+                params["beta"] = 0.9
         try:
             Vfull = [r.from_lcm_layout(np.asarray(v), t) for t, v in enumerate(V)]
         except ValueError as e:
